@@ -6,6 +6,7 @@ Table spec
     {"connectors": [{"name", "number", "io": "A2 - A0" | {"p": "3"}, "conn": None | [name, number]}, ...],
      "resources":  [{"name", "number", "node": NODE}, ...]}
     NODE = {"kind": "pins", "names": [...], "conn": None|[name, number], "dir", "invert", "clock_mhz", "attrs"}
+           (clock_mhz: None | MHz number | {"hz"|"khz"|"ns"|"ps"|"us": value}, see clock_hz)
          | {"kind": "diff", "p": [...], "n": [...], "conn", "dir", "invert", "clock_mhz", "attrs"}
          | {"kind": "group", "subs": [{"name": str, "node": NODE}, ...], "attrs"}
 An action is {"name", "number", "dir", "xdr"}; dir/xdr are None | str/int | (nested) dict, exactly the arguments
@@ -167,6 +168,15 @@ def verdict_ok(verdict, got_ok, got_is_resource_error):
     if verdict == REFUSE_ANY:
         return not got_ok
     return True
+
+
+def clock_hz(spec):
+    """declared clock -> frequency in Hz. spec: number (MHz) | {"hz": f} | {"khz": f} | {"ns": t} | {"ps": t}"""
+    if isinstance(spec, dict):
+        (unit, v), = spec.items()
+        return {"hz": lambda: v, "khz": lambda: v * 1e3, "mhz": lambda: v * 1e6,
+                "ns": lambda: 1e9 / v, "ps": lambda: 1e12 / v, "us": lambda: 1e6 / v}[unit]()
+    return spec * 1e6
 
 
 PORT_DIR = {"i": "i", "o": "o", "oe": "o", "io": "io"}      # declared pin direction -> I/O port direction value
